@@ -11,6 +11,11 @@
 //! * `c04s:decode_tags_mut` {"hex"} -> counts + digest over EVERY single-byte substitution / truncation / deletion of the text
 //! * `c04s:extend`          {"stmt"|"base","nparams","f","off","lim","order","desc","enc"} -> {"base_ws","suffix","nparams"}
 //!                          `encode_tag_filter`-like + `extend_query` (what COUNT / SCAN / DELETE_ALL finally send to SQLite)
+//! * `c04s:encode_pg`       as `c04s:encode`, through `replace_arg_placeholders::<PostgresBackend>` (`$n`); the executor runs the
+//!                          SQLite hook on the same filter as well and compares the two texts after re-spelling `?n` -> `$n`
+//! * `c04s:extend_pg`       {"stmt"?, "base", …as c04s:extend} -> {"base_ws","suffix","nparams"}   `extend_query::<PostgresBackend>`
+//!                          (` LIMIT $k OFFSET $k+1`); `base` always travels with the case (the Postgres constants by name come
+//!                          from `statement_pg` at generation time and are re-read, and compared, at execution time)
 use crate::canon::{filter_from_json, jerr};
 use crate::gen_store::{filter, root_filter, LIKE_PATTERNS, TAG_NAMES, TAG_VALUES};
 use crate::rng::Rng;
@@ -236,7 +241,36 @@ pub fn gen(r: &mut Rng, thorough: bool, count: Option<usize>) -> Vec<Value> {
         out.push(json!({"id": format!("c04s-ext-{}", i), "kind": "c04s:extend", "stmt": stmt, "base": base, "nparams": nparams, "f": f,
             "off": off, "lim": lim, "order": rr.chance(1, 2), "desc": rr.chance(1, 3), "enc": if rr.chance(1, 3) { "raw" } else { "toy" }}));
     }
+    // (5) the Postgres dialect: the encoder's text with `$n` ...
+    for i in 0..scale(1500, 30_000) {
+        let mut rr = r.fork();
+        let f = any_filter(&mut rr, thorough);
+        let enc = if rr.chance(1, 3) { "raw" } else { "toy" };
+        out.push(json!({"id": format!("c04s-encpg-{}", i), "kind": "c04s:encode_pg", "f": f, "start": *rr.pick(STARTS), "enc": enc}));
+    }
+    // ... and the final statement text (` LIMIT $k OFFSET $k+1`)
+    for i in 0..scale(300, 6_000) {
+        let mut rr = r.fork();
+        let (stmt, base) = match rr.below(8) {
+            0 | 1 => pg_stmt("count"),
+            2 | 3 => pg_stmt("scan"),
+            4 | 5 => pg_stmt("delete_all"),
+            _ => (Value::Null, json!(*rr.pick(&["SELECT 1 WHERE 1", "  \n\tselect x FROM t WHERE y = $1", "DELETE FROM t WHERE 1", "SELEC", "", " SeLeCt",
+                "UPDATE t SET a = $1 WHERE 1", "xSELECT", "SELECT $1, $2 WHERE $3"]))),
+        };
+        let f = if rr.chance(2, 3) { any_filter(&mut rr, false) } else { Value::Null };
+        let off = match rr.below(4) { 0 => json!(0), 1 => json!(rr.range(-2, 70)), _ => Value::Null };
+        let lim = match rr.below(5) { 0 => json!(-1), 1 => json!(rr.range(-2, 70)), 2 => json!(*rr.pick(&[0i64, 1, i64::MAX, i64::MIN])), _ => Value::Null };
+        let nparams = if stmt.is_null() { rr.below(6) } else { 3 };
+        out.push(json!({"id": format!("c04s-extpg-{}", i), "kind": "c04s:extend_pg", "stmt": stmt, "base": base, "nparams": nparams, "f": f,
+            "off": off, "lim": lim, "order": rr.chance(1, 2), "desc": rr.chance(1, 3), "enc": if rr.chance(1, 3) { "raw" } else { "toy" }}));
+    }
     out
+}
+
+/// a Postgres statement constant by name, with its text (the Lean side has no copy of these constants)
+fn pg_stmt(name: &str) -> (Value, Value) {
+    (json!(name), json!(hooks::statement_pg(name).unwrap_or("")))
 }
 
 // ---------------------------------------------------------------------------------------------
@@ -433,8 +467,147 @@ fn exec_extend(case: &Value) -> Value {
     }
 }
 
+// ---------------------------------------------------------------------------------------------
+// the Postgres dialect.  The oracle is written from the property text: in the final text every placeholder is `$k`, k running
+// consecutively from the start index in order of appearance, one per argument; no `?` and no `$$` / lone `$` is left; the
+// text is the SQLite text with the placeholders re-spelled; extend: parameter-count arithmetic and the LIMIT / OFFSET pair.
+
+/// every `$` of a text, in textual order: `Some(n)` for `$<digits>`, `None` for a `$` that is not followed by a digit
+fn dollars(sql: &str) -> Vec<Option<i64>> {
+    let b = sql.as_bytes();
+    let mut v = vec![];
+    let mut i = 0;
+    while i < b.len() {
+        if b[i] == b'$' {
+            let mut j = i + 1;
+            while j < b.len() && b[j].is_ascii_digit() { j += 1; }
+            v.push(if j > i + 1 { sql[i + 1..j].parse::<i64>().ok() } else { None });
+            i = j;
+        } else { i += 1; }
+    }
+    v
+}
+
+/// `?<digit>` -> `$<digit>` (a `?` that does not start a number is left alone)
+fn respell_qmarks(sql: &str) -> String {
+    let cs: Vec<char> = sql.chars().collect();
+    (0..cs.len()).map(|i| if cs[i] == '?' && cs.get(i + 1).map_or(false, |c| c.is_ascii_digit()) { '$' } else { cs[i] }).collect()
+}
+
+fn exec_encode_pg(case: &Value) -> Value {
+    let mode = case["enc"].as_str().unwrap_or("toy").to_string();
+    let start = case["start"].as_i64().unwrap_or(1);
+    let f = match filter_from_json(&case["f"]) { Some(f) => f, None => return json!({"out": {"err": "bad filter"}}) };
+    let f2 = match filter_from_json(&case["f"]) { Some(f) => f, None => return json!({"out": {"err": "bad filter"}}) };
+    let (m1, m2, m3, m4) = (mode.clone(), mode.clone(), mode.clone(), mode.clone());
+    let res = catch_unwind(AssertUnwindSafe(|| hooks::encode_filter_pg(f, (start - 1) as usize, move |s| enc_name(&m1, s), move |s| enc_value(&m2, s))));
+    let lite = catch_unwind(AssertUnwindSafe(|| hooks::encode_filter(f2, (start - 1) as usize, move |s| enc_name(&m3, s), move |s| enc_value(&m4, s))));
+    let mut fails = vec![];
+    let mut feat = json!({"encode_pg": 1});
+    let out = match res {
+        Err(_) => { fails.push(oracle("encode_pg:panic", case["f"].clone())); json!({"panic": true}) }
+        Ok(Err(e)) => { fails.push(oracle("encode_pg:error", jerr(&e))); jerr(&e) }
+        Ok(Ok(None)) => {
+            feat["pg_no_clause"] = json!(1);
+            if !matches!(lite, Ok(Ok(None))) { fails.push(oracle("encode_pg:differs-from-sqlite-clause", json!({"pg": "none"}))); }
+            json!({"none": true})
+        }
+        Ok(Ok(Some((sql, raw, args)))) => {
+            let ds = dollars(&sql);
+            let want: Vec<Option<i64>> = (0..args.len() as i64).map(|k| Some(start + k)).collect();
+            if ds.iter().any(|d| d.is_none()) || sql.contains('?') {
+                fails.push(oracle("encode_pg:placeholder-left-over", json!({"sql": sql, "raw": raw})));
+            } else if ds != want {
+                fails.push(oracle("encode_pg:placeholder-order", json!({"got": ds, "want": want, "sql": sql})));
+            }
+            if !balanced(&sql) { fails.push(oracle("encode_pg:unbalanced", json!({"sql": sql}))); }
+            match lite {
+                Ok(Ok(Some((lsql, lraw, largs)))) => {
+                    if respell_qmarks(&lsql) != sql { fails.push(oracle("encode_pg:differs-from-sqlite-text", json!({"pg": sql, "sqlite": lsql}))); }
+                    if lraw != raw || largs != args { fails.push(oracle("encode_pg:differs-from-sqlite-args", json!({"pg_raw": raw, "sqlite_raw": lraw}))); }
+                    feat["pg_vs_sqlite"] = json!(1);
+                }
+                _ => fails.push(oracle("encode_pg:differs-from-sqlite-clause", json!({"pg": sql}))),
+            }
+            feat["pg_clause"] = json!(1);
+            feat["pg_args"] = json!(args.len());
+            feat["pg_not_in"] = json!(sql.matches(" NOT IN ").count());
+            json!({"sql": sql, "raw": raw, "args": args.iter().map(hex::encode).collect::<Vec<_>>()})
+        }
+    };
+    json!({"out": out, "oracle": fails, "feat": feat})
+}
+
+/// the text up to the LIMIT clause `limit_query` appended (the clause, if any, is the tail starting at the last " LIMIT ")
+fn before_limit(suffix: &str) -> &str { suffix.rfind(" LIMIT ").map_or(suffix, |i| &suffix[..i]) }
+
+fn exec_extend_pg(case: &Value) -> Value {
+    let mode = case["enc"].as_str().unwrap_or("toy").to_string();
+    let nparams = case["nparams"].as_u64().unwrap_or(0) as usize;
+    let mut fails = vec![];
+    let base: String = case["base"].as_str().unwrap_or("").to_string();
+    if let Some(name) = case["stmt"].as_str() {
+        // the constant named by the case is the text the case carries
+        match hooks::statement_pg(name) {
+            Some(s) if s == base => {}
+            other => fails.push(oracle("extend_pg:base-differs-from-statement", json!({"stmt": name, "now": other}))),
+        }
+    }
+    let (off, lim) = (case["off"].as_i64(), case["lim"].as_i64());
+    let (order, desc) = (case["order"].as_bool().unwrap_or(false), case["desc"].as_bool().unwrap_or(false));
+    let mut nargs = 0usize;
+    let mut lite_filter = None;
+    let tag_filter = if case["f"].is_null() { None } else {
+        let f = match filter_from_json(&case["f"]) { Some(f) => f, None => return json!({"out": {"err": "bad filter"}}) };
+        let f2 = match filter_from_json(&case["f"]) { Some(f) => f, None => return json!({"out": {"err": "bad filter"}}) };
+        let (m1, m2, m3, m4) = (mode.clone(), mode.clone(), mode.clone(), mode.clone());
+        if let Ok(Some((sql, _raw, args))) = hooks::encode_filter(f2, nparams, move |s| enc_name(&m3, s), move |s| enc_value(&m4, s)) { lite_filter = Some((sql, args)); }
+        // as `encode_tag_filter::<PostgresBackend>(tag_filter, &key, params.len())`
+        match hooks::encode_filter_pg(f, nparams, move |s| enc_name(&m1, s), move |s| enc_value(&m2, s)) {
+            Ok(Some((sql, _raw, args))) => { nargs = args.len(); Some((sql, args)) }
+            Ok(None) => None,
+            Err(e) => return json!({"out": jerr(&e), "oracle": [oracle("extend_pg:encode-error", jerr(&e))]}),
+        }
+    };
+    let had_filter = tag_filter.is_some();
+    let lite = hooks::extend_query(&base, nparams, lite_filter, off, lim, order, desc);
+    match hooks::extend_query_pg(&base, nparams, tag_filter, off, lim, order, desc) {
+        Err(e) => json!({"out": jerr(&e), "oracle": [oracle("extend_pg:error", jerr(&e))]}),
+        Ok((q, n)) => {
+            let suffix = if q.starts_with(&base) { q[base.len()..].to_string() } else { fails.push(oracle("extend_pg:base-not-prefix", json!(q))); q.clone() };
+            let is_select = base.trim_start().to_ascii_uppercase().starts_with("SELECT");
+            let window = is_select && (off.is_some() || lim.is_some());
+            // every parameter bound, every bound parameter used: the suffix's $k are nparams+1 ..= n in order, nothing else
+            let want: Vec<Option<i64>> = (nparams as i64 + 1..=n as i64).map(Some).collect();
+            if dollars(&suffix) != want || suffix.contains('?') { fails.push(oracle("extend_pg:placeholder-order", json!({"suffix": suffix, "want": want}))); }
+            let want_n = nparams + nargs + if window { 2 } else { 0 };
+            if n != want_n { fails.push(oracle("extend_pg:param-count", json!({"got": n, "want": want_n}))); }
+            // two parameters for the window: the first is the LIMIT, the second the OFFSET, numbered after the filter's arguments
+            let tail = format!(" LIMIT ${} OFFSET ${}", nparams + nargs + 1, nparams + nargs + 2);
+            if window != suffix.ends_with(&tail) || (!window && suffix.contains(" LIMIT ")) {
+                fails.push(oracle("extend_pg:limit-clause-shape", json!({"suffix": suffix, "window": window})));
+            }
+            // up to the window clause the statement is the SQLite one, re-spelled; the parameter count is the same
+            match lite {
+                Ok((lq, ln)) => {
+                    let lsuffix = if lq.starts_with(&base) { lq[base.len()..].to_string() } else { lq.clone() };
+                    if respell_qmarks(before_limit(&lsuffix)) != before_limit(&suffix) || ln != n {
+                        fails.push(oracle("extend_pg:differs-from-sqlite", json!({"pg": suffix, "sqlite": lsuffix, "pg_n": n, "sqlite_n": ln})));
+                    }
+                }
+                Err(e) => fails.push(oracle("extend_pg:differs-from-sqlite", jerr(&e))),
+            }
+            json!({"out": {"base_ws": collapse_ws(&base), "suffix": suffix, "nparams": n}, "oracle": fails,
+                "feat": {"extend_pg": 1, "pg_ext_filter": had_filter as u32, "pg_ext_limit": window as u32, "pg_ext_select": is_select as u32,
+                    "pg_ext_null_limit": (window && lim.is_none()) as u32, "pg_ext_negative_limit": (window && lim.map_or(false, |l| l < 0)) as u32}})
+        }
+    }
+}
+
 pub fn exec(case: &Value, _tag: &str) -> Value {
     match case["kind"].as_str().unwrap_or("") {
+        "c04s:encode_pg" => exec_encode_pg(case),
+        "c04s:extend_pg" => exec_extend_pg(case),
         "c04s:encode" => exec_encode(case),
         "c04s:replace" => exec_replace(case),
         "c04s:decode_tags" => exec_decode(case),
